@@ -135,7 +135,7 @@ def run_draws(case, v):
 
     def spy(*a_):
         u_ = orig_rand(*a_)
-        drawn.append(u_)
+        drawn.extend(np.ravel(u_).tolist())        # one call may draw several numbers at once
         return u_
     n_exact = 0
     for i in range(min(N, 1500)):
